@@ -303,7 +303,8 @@ func rulesC20(r *Run) {
 	r.Kind("R3", "K3")
 	ruleReset(r, "R3")
 	ruleUpReslice(r, "R3")
-	r.Expect("R3", 3)
+	ruleUpTouchesOnlyTheCursor(r, "R3")
+	r.Expect("R3", 4)
 
 	r.Kind("R4", "K2+K7")
 	placement := map[string][]string{"AddChecks": {"workflow.Plan", "workflow.Block"}, "AddBlock": {"workflow.Plan"}, "AddSequence": {"workflow.Block"}, "AddAction": {"workflow.Sequence", "workflow.Checks"}}
@@ -1558,4 +1559,43 @@ func ruleWalkerAnswer(r *Run, rule string, fn *Func) {
 		}
 	}
 	r.Check(rule, "walker-answers-true-unless-stopped:"+label, bpos, bad == "", "%s", orOK(bad, "every path answers true, the result of a visit, or a variable it assigned"))
+}
+
+// ruleUpTouchesOnlyTheCursor (round-4 seed C20-8): Up() moves the cursor and nothing else. Whatever was added stays where it was
+// put — a group that is still empty when it is left is as much part of the described plan as any other, and its slot must
+// stay taken so that a second group of the same kind is still reported. On no path of Up (the helpers it alone calls included)
+// is a field of a workflow object assigned, or anything assigned through a pointer.
+func ruleUpTouchesOnlyTheCursor(r *Run, rule string) {
+	fn := r.fnByKey(rule, bKey("Up"))
+	if fn == nil {
+		return
+	}
+	fl, paths, ok := r.flowPaths(rule, fn)
+	if !ok {
+		return
+	}
+	paths = fl.OwnOnly(paths)
+	info := fl.Info
+	bad := ""
+	var bpos token.Pos = fn.Decl.Pos()
+	for i := range paths {
+		p := &paths[i]
+		for _, e := range p.Ev {
+			if e.Kind != EvAssign || bad != "" {
+				continue
+			}
+			for _, l := range e.Lhs {
+				l = ast.Unparen(l)
+				switch x := l.(type) {
+				case *ast.StarExpr:
+					bad, bpos = "Up() assigns through a pointer ("+ExprStr(l)+"): leaving an object must not change the plan — a group dropped here is missing from the emitted plan and a second group of its kind is no longer reported as a duplicate", e.Pos
+				case *ast.SelectorExpr:
+					if tv, ok := info.Types[x.X]; ok && strings.HasPrefix(TypeKey(tv.Type), "workflow.") {
+						bad, bpos = "Up() assigns "+ExprStr(l)+": leaving an object must not change the plan", e.Pos
+					}
+				}
+			}
+		}
+	}
+	r.Check(rule, "Up:touches-only-the-cursor", bpos, bad == "", "%s", orOK(bad, "Up assigns nothing of the plan"))
 }
